@@ -1,6 +1,7 @@
 package props
 
 import (
+	"sync"
 	"encoding/json"
 	"fmt"
 	"math/rand/v2"
@@ -143,6 +144,7 @@ func runC17(r *mon.Run) {
 		}
 		c17Key(r, rng, bits, 1+rng.IntN(4), nLeaves, k)
 	}
+	c17Interleaved(r)
 	// cheap extra completeness runs
 	for k := 0; k < r.Pick(1, 6); k++ {
 		c17Complete(r, rng, 48+rng.IntN(83), 1+rng.IntN(4))
@@ -873,4 +875,92 @@ func c17Components(r *mon.Run, rng *rand.Rand) {
 			return keyproof.VerifQuasiSafePrimeProductVerifyProof(n, challenge, m)
 		})
 	}
+}
+
+// c17Barrier is a progress follower that holds every verification at the start of its commitment-rebuilding phase until all
+// parties have finished their structure checks (or ended): the one schedule in which state kept on the shared structure by one
+// verification is seen by another.
+type c17Barrier struct {
+	mu      sync.Mutex
+	cond    *sync.Cond
+	parties int
+	arrived int
+	ended   int
+}
+
+func (b *c17Barrier) StepStart(desc string, _ int) {
+	if desc != "Rebuilding commitments" {
+		return
+	}
+	b.mu.Lock()
+	b.arrived++
+	b.cond.Broadcast()
+	for b.arrived+b.ended < b.parties {
+		b.cond.Wait()
+	}
+	b.mu.Unlock()
+}
+func (b *c17Barrier) Tick()     {}
+func (b *c17Barrier) StepDone() {}
+func (b *c17Barrier) end() {
+	b.mu.Lock()
+	b.ended++
+	b.cond.Broadcast()
+	b.mu.Unlock()
+}
+
+// c17Interleaved: two (three) different honest proofs of one key are verified at the same time on ONE structure object, in the
+// schedule where all structure checks come before all commitment rebuilding. The structure is the per-key statement; every proof
+// has to be judged on its own content whatever else is being verified.
+func c17Interleaved(r *mon.Run) {
+	for _, parties := range []int{2, 3} {
+		pp, qp, n := provableKey(48)
+		s := keyproof.NewValidKeyProofStructure(n, []*big.Int{bi(36), bi(49)})
+		proofs := make([]keyproof.ValidKeyProof, parties)
+		for i := range proofs {
+			built := s.BuildProof(pp, qp)
+			jb, err := json.Marshal(built)
+			if err != nil || json.Unmarshal(jb, &proofs[i]) != nil {
+				r.Inconclusive("key proof does not survive a JSON round trip")
+				return
+			}
+		}
+		// one altered proof among them: it must stay rejected, the others accepted
+		bad := parties - 1
+		if parties == 3 {
+			proofs[bad].PprimeIsPrimeProof.PreaCommit.Commit = add(proofs[bad].PprimeIsPrimeProof.PreaCommit.Commit, bigOne)
+		}
+		bar := &c17Barrier{parties: parties}
+		bar.cond = sync.NewCond(&bar.mu)
+		old := keyproof.Follower
+		keyproof.Follower = bar
+		res := make([]bool, parties)
+		pvs := make([]any, parties)
+		var wg sync.WaitGroup
+		for i := 0; i < parties; i++ {
+			wg.Add(1)
+			go func(i int) {
+				defer wg.Done()
+				defer bar.end()
+				pvs[i], _ = mon.Try(func() { res[i] = s.VerifyProof(proofs[i]) })
+			}(i)
+		}
+		wg.Wait()
+		keyproof.Follower = old
+		for i := 0; i < parties; i++ {
+			desc := fmt.Sprintf("%d verifications on one structure, structure checks before rebuilding, proof #%d", parties, i)
+			r.Distinct("interleaved", desc)
+			want := !(parties == 3 && i == bad)
+			r.Eval("interleaved", outcome(res[i], pvs[i]))
+			switch {
+			case pvs[i] != nil:
+				r.PanicSeen(fmt.Sprint(pvs[i]))
+			case want && !res[i]:
+				r.Violation("C17/honest-key-proof-rejected/interleaved", "an honest key proof is rejected when another proof is verified on the same structure at the same time ("+desc+")", map[string]any{"case": desc})
+			case !want && res[i]:
+				r.Violation("C17/altered-proof-accepted/interleaved", "an altered key proof is accepted when other proofs are verified on the same structure at the same time ("+desc+")", map[string]any{"case": desc})
+			}
+		}
+	}
+	r.FloorFam("interleaved", 5)
 }
